@@ -425,23 +425,33 @@ class Check(PropertyCheck):
     level_text = ("Lean theorems about the executable model of mitmproxy's HTTP/1 reading and writing functions (h11 "
                   "maybe_extract_lines, _read_headers, request/status line, validate_headers, parse_transfer_encoding over the "
                   "regenerated whitelist, parse_content_length, expected_http_body_size, head assembly and the chunk re-framing of "
-                  "Http1Client.send/Http1Server.send) against `Ref`, a strict RFC 9112 reader written as the specification: for ALL "
-                  "field lists, a message the proxy accepts is never one the reference reader calls ambiguous (requests and responses, "
-                  "every ambiguity class); for ALL accepted requests/responses and ALL bodies consistent with the headers the bytes "
-                  "written by the proxy are read back by the reference reader as exactly that message (method/target/status, fields "
-                  "up to obs-fold canonicalisation, body), also after addon edits that keep validate_headers true, and pipelined "
-                  "messages by induction. The real HttpLayer (regular/reverse/transparent, validate_inbound_headers on) is checked "
-                  "directly: bytes written upstream/downstream are parsed by an independent Python RFC 9112 parser and compared "
-                  "with the flows recorded at the hooks; the model is tied function by function to the real code and the Lean Ref "
-                  "to the Python reference parser.")
-    level_note = "see evidence; parts proved under explicit hypotheses are listed in the final report"
+                  "Http1Client.send/Http1Server.send) against `Ref`, a strict RFC 9112 reader written as the specification. Proved for "
+                  "ALL field lists, versions, statuses and request methods: framing_agrees (whatever validate_headers accepts, the "
+                  "reference reader finds unambiguous AND delimits exactly as expected_http_body_size does: chunked / length n / "
+                  "until close / none, incl. HEAD, 1xx, 204, 304, CONNECT-2xx), ambiguous_rejected (its contrapositive for every "
+                  "ambiguity class: CL+TE, differing or malformed CL, unknown / misplaced / repeated coding, non-chunked request "
+                  "coding, TE on HTTP/1.0, TE on 1xx/204) and bad_field_name_rejected; the whitelist lemma parseTE_codings (what "
+                  "parse_transfer_encoding accepts is read by the reference reader as exactly the codings of the whitelist entry). "
+                  "The real HttpLayer (regular/reverse/transparent, validate_inbound_headers on) is checked directly: bytes written "
+                  "upstream/downstream are parsed by an independent Python RFC 9112 parser and compared with the flows recorded at the "
+                  "hooks (count, order, method, target, fields, body; ambiguous messages not forwarded); the model is tied function by "
+                  "function to the real code, and the Lean Ref to the Python reference parser.")
+    level_note = ("PARTIAL in Lean: forward_request_roundtrip / forward_stream_roundtrip / edit_stable are stated in full in "
+                  "Props/C01.lean (ForwardRequestRoundtrip, ForwardStreamRoundtrip) but NOT proved — only checked on concrete instances "
+                  "(by rfl) and, on the real code, by the reference-parser oracle over generated exchanges incl. addon edits; what is "
+                  "proved is the framing decision half of it (framing_agrees). Parameters/assumptions: url.parse_authority/url.parse "
+                  "(authOk; only simple host[:port] authorities are compared), h11 readers as transcribed, Python regex `$` semantics "
+                  "(trailing newline) modelled in parseCL/nameOk. Reference reader deliberately lenient where framing is not at stake: "
+                  "request-line tokens only need to be SP-delimited (a non-token method is not judged), NUL only rejected in field "
+                  "values. Excluded: request lines announcing HTTP/2.0 or HTTP/3.0 on an HTTP/1 connection (h2->h1 conversion path, "
+                  "C06), addon edits that break the message themselves (body on HEAD/1xx/204/304 response, edits after streaming started).")
     technique = "Lean 4 proof (induction over field lists / bytes) + translator table + function-level differential correspondence + independent reference-parser oracle on the real layer"
     rule = ("x: grammar-directed exchanges (1-3 pipelined requests x scripted origin responses x addon edit script x mode; ~70% "
             "valid, ~20% one-byte/line mutations, ~10% token soup), 30% with a random segmentation; fn: the request and response "
             "heads, TE/CL values, bodies of the same grammar fed to single functions (model tie) and to both reference parsers. "
             "distinct = distinct case; non-trivial = at least one flow / a non-empty input.")
-    budget = {"quick": 4000, "thorough": 150000}
-    time_budget = {"quick": 30, "thorough": 540}
+    budget = {"quick": 2500, "thorough": 150000}
+    time_budget = {"quick": 12, "thorough": 480}
     fingerprints = ["mitmproxy.net.http.http1.read:_read_headers", "mitmproxy.net.http.http1.read:_read_request_line",
                     "mitmproxy.net.http.http1.read:_read_response_line", "mitmproxy.net.http.http1.read:expected_http_body_size",
                     "mitmproxy.net.http.http1.read:connection_close", "mitmproxy.net.http.http1.read:raise_if_http_version_unknown",
